@@ -298,13 +298,30 @@ static void caseRobust(vh::Rng& g)
 	}
 	else R->count("robust:bdd-loaders-skipped(symbol-budget-or-size)");
 	if (anyOk) R->count("robust:some-target-accepted");
+	{	// the parser and the loaders must not carry anything over from a rejected (or accepted) hostile input: a
+		// fixed well-formed text (ranks, states with and without suffix-like names) parses to the same description
+		// after every input (history clause; seeded change m74: a conversion stream reused across calls kept its
+		// error flags after one malformed rank)
+		static AutDescription canary; static std::string canaryText;
+		if (canaryText.empty()) { vh::Rng cg(12345); do { canary = genDesc(cg, 3, false); } while (canary.transitions.size() < 3); canaryText = serializer().Serialize(canary); }
+		R->phase("canary ParseString after a hostile input"); R->count("robust:canary-parses");
+		try
+		{
+			AutDescription e = parser().ParseString(canaryText);
+			if (!(e.transitions == canary.transitions) || !(e.finalStates == canary.finalStates)) R->violation("C13/history/valid-text-parsed-differently-after-hostile-input", in + "\n--- then ---\n" + canaryText);
+			if (g.chance(1, 8)) { ExplicitTreeAut a; a.LoadFromString(parser(), canaryText); ExplicitFiniteAut f; try { f.LoadFromString(parser(), canaryText); } catch (std::exception&) { /* rank > 1: not a word automaton */ } }
+		}
+		catch (std::exception& ex) { R->violation("C13/history/valid-text-rejected-after-hostile-input", std::string(ex.what()) + "\n" + in + "\n--- then ---\n" + canaryText); }
+	}
 	bool reachedTransitions = in.find("Transitions") != std::string::npos;
 	if (anyOk || reachedTransitions) { R->nontrivial(vh::fnv(in)); if (R->wantSample() && in.size() < 400) R->sample("robustness input (" + vec + "):\n" + in); }
 }
 
 static void caseC13(uint64_t idx, vh::Rng& g)
 {
-	if (idx % 8 == 0) caseRoundTrip(g); else caseRobust(g);
+	// chosen by the case's own PRNG, not by the index: shards take the indices i = k (mod n), and every process must
+	// interleave round trips with hostile inputs (a parser that remembers something from a rejected input)
+	(void)idx; if (g.below(8) == 0) caseRoundTrip(g); else caseRobust(g);
 }
 
 int main(int argc, char** argv)
